@@ -15,7 +15,7 @@ Definition run_case (x : sx) : sx :=
   match x with
   | L (A op :: args) =>
       if op =? 1 then match args with [n] => match as_N n with Some n' => r_ok (sN (asc n')) | None => sx_err end | _ => sx_err end
-      else if in_range 10 19 op then run_month op args
+      else if in_range 10 19 op then run_month_any op args
       else if in_range 20 29 op then run_entry op args
       else if in_range 30 39 op then run_library op args
       else if in_range 40 49 op then run_sortfields op args
